@@ -255,24 +255,29 @@ def _stop_when_enough(ctx):
         raise PathAbort()
 
 
-def _vars(t, cache={}):
+_VARS_CACHE = {}      # AST id -> (term, set of variable ids); the term is kept alive so that its id cannot be recycled
+
+
+def _vars(t):
     key = t.get_id()
-    hit = cache.get(key)
-    if hit is None:
-        hit, todo, seen = set(), [t], set()
-        while todo:
-            x = todo.pop()
-            if x.get_id() in seen:
-                continue
-            seen.add(x.get_id())
-            if z3.is_const(x):
-                if x.decl().kind() == z3.Z3_OP_UNINTERPRETED:
-                    hit.add(x.get_id())
-            else:
-                todo.extend(x.children())
-        if len(cache) < 200000:
-            cache[key] = hit
-    return hit
+    hit = _VARS_CACHE.get(key)
+    if hit is not None:
+        return hit[1]
+    out, todo, seen = set(), [t], set()
+    while todo:
+        x = todo.pop()
+        if x.get_id() in seen:
+            continue
+        seen.add(x.get_id())
+        if z3.is_const(x):
+            if x.decl().kind() == z3.Z3_OP_UNINTERPRETED:
+                out.add(x.get_id())
+        else:
+            todo.extend(x.children())
+    if len(_VARS_CACHE) > 50000:
+        _VARS_CACHE.clear()
+    _VARS_CACHE[key] = (t, out)
+    return out
 
 
 def _mul_args(t):
@@ -309,7 +314,7 @@ def _lift_term(t, memo):
     key = t.get_id()
     hit = memo.get(key)
     if hit is not None:
-        return hit
+        return hit[1]
     out = t
     if z3.is_app_of(t, z3.Z3_OP_ITE) and z3.is_real(t):
         g, a, e = t.arg(0), t.arg(1), t.arg(2)
@@ -322,7 +327,7 @@ def _lift_term(t, memo):
                 rest = [x for i, x in enumerate(args) if i != hitpos[0]]
                 extra = rest[0] if len(rest) == 1 else z3.Sum(rest)
                 out = _lift_term(e, memo) + _guarded(g, extra)
-    memo[key] = out
+    memo[key] = (t, out)          # keeps t alive: AST ids are only unique among live terms
     return out
 
 
@@ -335,14 +340,15 @@ def _resolve_term(ctx, t, gamma, leaf_memo, memo=None):
     key = t.get_id()
     hit = memo.get(key)
     if hit is not None:
-        return hit
+        return hit[1]
     out = t
     if z3.is_app_of(t, z3.Z3_OP_ITE) and z3.is_real(t) and _is_zero(t.arg(2)):
         g, w = t.arg(0), t.arg(1)
         tv = _vars(t)
         rel = [c for c in gamma if _vars(c) <= tv]          # a subset of gamma suffices (and makes the verdict reusable)
         lkey = (key,) + tuple(sorted(c.get_id() for c in rel))
-        out = leaf_memo.get(lkey)
+        hit = leaf_memo.get(lkey)
+        out = hit[2] if hit is not None else None
         if out is None:
             out = t
             import time
@@ -360,7 +366,7 @@ def _resolve_term(ctx, t, gamma, leaf_memo, memo=None):
                     break
             if r == "unsat":
                 out = w
-            leaf_memo[lkey] = out
+            leaf_memo[lkey] = (t, rel, out)
     elif not z3.is_const(t) and z3.is_app(t) and z3.is_real(t):
         kids = t.children()
         new = [_resolve_term(ctx, k, gamma, leaf_memo, memo) if z3.is_real(k) else k for k in kids]
@@ -371,7 +377,7 @@ def _resolve_term(ctx, t, gamma, leaf_memo, memo=None):
                 out = z3.Product(new)
             elif t.decl().arity() == len(new):
                 out = t.decl()(*new)
-    memo[key] = out
+    memo[key] = (t, out)
     return out
 
 
@@ -532,7 +538,9 @@ def case_convolver(ctx, H, W, ky, kx, ncols, masks=None, pattern=None):
             # negative, the other contributing entries zero) - a model search over the whole region is erratic for > 12 sources.
             witness = z3.And(B[k, c].t < 0, *[B[i, c].t == 0 for i in src if i != k])
             a_in = _resolve_term(ctx, a.t, [], memo_free)
-            ctx.check(key, z3.Or(z3.Not(witness), a_in == et), known={FINDING_NEG: witness})
+            zeros = [(B[i, c].t, z3.RealVal(0)) for i in src if i != k]
+            ob_w = z3.simplify(z3.substitute(a_in == et, *zeros)) if zeros else (a_in == et)     # equivalent under `witness`
+            ctx.check(key, z3.Or(z3.Not(witness), ob_w), known={FINDING_NEG: witness})
         else:
             ctx.check(key, _resolve_term(ctx, a.t, [], memo_free) == et)
     hx.validate(ctx, body_convolver, inputs, kw, actual, every=32)
